@@ -149,6 +149,30 @@ prop(
     thorough=dict(checks=15000, shards=16),
 )
 
+prop(
+    "C07",
+    title="Decoding is total and its normalisation is idempotent",
+    technique="property-based testing (rapid) with structure-aware mutation of vocabulary documents (wrong JSON types, nulls, empty containers, duplicate members, case-folded keywords, extreme number tokens, odd $ref strings, deep nesting), arbitrary bytes and JSON-ish strings, every exported model type as decode target; oracle = no panic + encoded form is a byte-level fixed point of decode/encode; native Go fuzzing per decode type in the thorough tier; deep-nesting probe in an isolated worker",
+    rule="70% structure-aware mutants (1-3 mutations) of vocabulary documents, 10% unmutated documents decoded into a possibly unrelated type, 10% free-form JSON values, 10% arbitrary bytes / JSON-ish strings; 45 decode targets (all exported model types incl. the unions and *Props structs). Inputs in which some member name case-folds onto a keyword (detected on the final document, over-approximated with the keywords of all kinds) are checked for totality only. Non-trivial = a mutation changed a JSON type/emptiness or duplicated a member; distinct by hash of target+text",
+    design_ref="DESIGN.md §4 C07",
+    level_text="exploration: every input must decode to a value or an error without panic; when decode and encode succeed, decoding and encoding the encoded form must reproduce it byte for byte (diff atoms otherwise); depth 2000 and 12000 nesting probes run in a worker with a bounded stack and a watchdog",
+    level_note="the case-fold exemption is the statement's own; a duplicate member is legal JSON for encoding/json (last one wins) and is in the domain",
+    quick=dict(checks=4000, shards=4),
+    thorough=dict(checks=30000, shards=16, fuzz=[("FuzzC07Schema", 25), ("FuzzC07Swagger", 20), ("FuzzC07Parameter", 15), ("FuzzC07Responses", 15), ("FuzzC07PathItem", 15), ("FuzzC07SecurityScheme", 10)]),
+)
+
+prop(
+    "C06",
+    title="Encoding is well-formed, collision-free and deterministic",
+    technique="property-based testing (rapid): (a) model values decoded from vocabulary documents inside and outside the normal form (mutated, arbitrary x-order values), (b) a generated sequence of builder-API calls interpreted step by step (model-based: the value itself is read back by direct field access); oracle = strict order-preserving JSON scan (validity, duplicate member names), member-name sets of every map-valued container equal to what the model holds, 20 byte-identical encodings, byte-identical encodings after re-decoding with another member order, x-order/name ordering of properties",
+    rule=VOCAB_RULE + "Family (a), 65%: a random kind (schema 40%), every properties/patternProperties member decorated with x-order drawn from ints, integer strings, ties, fractions and junk (70%), 35% additionally mutated outside the normal form. Family (b), 35%: 1-30 builder calls on Schema/Parameter/Header/Items/Operation/Response/SecurityScheme with hostile names, checked after every step, then assembled into a Swagger document. Non-trivial = a container with >=2 properties, a hostile name, or any builder sequence; distinct by hash of the case",
+    design_ref="DESIGN.md §4 C06",
+    level_text="exploration: encode errors are accepted, everything else must be valid JSON without repeated member names whose map containers parse back to exactly the keys the model holds (read from the Go value by field access, independently of the MarshalJSON methods); repeated encodings and encodings after a re-decode with shuffled member order must be byte-identical (this is what exposes map-iteration dependence); properties must come out in ascending integer x-order, ties and unordered ones by name",
+    level_note="for non-integer x-order values only determinism is demanded (the statement does not fix how a fraction compares); emission rules that the code documents (only x- prefixed extensions, only /-prefixed paths are emitted) are applied to the model's keys before comparing",
+    quick=dict(checks=1500, shards=4),
+    thorough=dict(checks=12000, shards=16),
+)
+
 
 def manifest():
     allids = []
